@@ -161,7 +161,11 @@ func genC07(t *rapid.T) C07Case {
 		Symbols: rapid.IntRange(0, 3).Draw(t, "symbols") == 0,
 	}
 	paths := wl.names()
-	paths = append(paths, "google/protobuf/descriptor.proto")
+	if wl.DescriptorOverride == "" {
+		// (With an overriding descriptor.proto a resolver error for that path is
+		// not benign: the compiler legitimately falls back to the built-in one.)
+		paths = append(paths, "google/protobuf/descriptor.proto")
+	}
 	nf := rapid.IntRange(0, 3).Draw(t, "nfaults")
 	for i := 0; i < nf; i++ {
 		path := paths[rapid.IntRange(0, len(paths)-1).Draw(t, "faultPath")]
